@@ -455,6 +455,7 @@ def check_C09(F, tier, t0):
     guarded(R, 'S eval_recursive (FixedPoint / Subtree / Quantifier arms)', fixed_point_arms, R, E)      # a fixed-point name leaves the answer only through the substitution
     guarded(R, 'X3 order', engine_x.rule_X3, F, R)
     guarded(R, 'X2 listing', engine_x.rule_X2, F, R, ('table',))      # the names a -v line shows are the headers of the free-variable columns, entry by entry
+    guarded(R, 'whole sequences', engine_x.rule_whole_sequences, F, R, ('vars', 'ordering'))      # every name of the text, every variable of the ordering
     front_end(R, F)
     R.floor('functions', 5); R.floor('worlds', 16); R.floor('X4:extract_vars', 1); R.floor('X4:free_vars-fill', 1)
     return finish(R, 'other', tier, t0,
@@ -509,6 +510,7 @@ def check_C11(F, tier, t0):
     evaluation(R, E)
     guarded(R, 'S var_is_free', run_S, R, E, [FRF], spec_bdd.B, False)      # the same named variables under every order: the free-variable analysis must not depend on ids
     R.floor('X5:id-registration-sites', 1); R.floor('X4:ordering-flow', 1); R.floor('X4:export-ordering', 1)
+    guarded(R, 'whole sequences', engine_x.rule_whole_sequences, F, R, ('vars',))      # every name of the text is in the variable list
     return finish(R, 'other', tier, t0,
         'Clauses: counter invariant of tokenize (after every registration the fresh-id counter exceeds every registered id, names are looked up before a fresh id is taken); '
         'column look-up by id in the id-sorted free_vars (no position/id confusion); the -o file flows through tokenize + extract_vars into the parser\'s ordering argument; '
@@ -626,6 +628,7 @@ def check_C13(F, tier, t0):
     guarded(R, 'E8', engine_e.rule_E8, F, R)
     guarded(R, 'E9', engine_e.rule_E9, F, R)
     guarded(R, 'E10', engine_e.rule_E10, F, R)      # a set never creates a second environment
+    guarded(R, 'whole sequences', engine_x.rule_whole_sequences, F, R, ('node_list',))      # node counts run over every node
     guarded(R, 'X5', engine_x.rule_X5, F, R)      # in a shared environment a second formula's new variable must not take an id that is in use
     guarded(R, 'X7', engine_x.rule_X7, F, R)      # the exported diagram shows a shared node once (de-duplicated node and edge lists)
     guarded(R, 'XR', engine_x.rule_references, F, R)      # evaluating a formula leaves its definitions alone (a second evaluation sees what the first saw)
@@ -673,6 +676,7 @@ def check_C14(F, tier, t0):
     guarded(R, 'X4 lineage', engine_x.rule_X4, F, R, ('model', 'retain'))      # the exported diagram is the one the table shows (after --retain-choices and --model)
     guarded(R, 'X7', engine_x.rule_X7, F, R)
     guarded(R, 'X4 rendered', engine_x.rule_X4_rendered, F, R)      # an export that is asked for is written
+    guarded(R, 'whole sequences', engine_x.rule_whole_sequences, F, R, ('dot', 'parsetree', 'node_list'))
     guarded(R, 'X7 children', engine_x.rule_X7_children, F, R)      # both children of a decision node, the child itself as the target of a parse-tree edge
     guarded(R, 'X8', engine_x.rule_X8, F, R, 'rsbdd', 'executable')
     guarded(R, 'T filter spellings', engine_t.rule_tte, F, R)
